@@ -129,6 +129,55 @@ def empty_chunk_pass(ctx, model, nptdms, stats):
     return out
 
 
+def late_channel_pass(ctx, model, nptdms, stats):
+    """A channel of every readable type that first appears in a LATER segment (the first segment holds another channel only), and
+    one that disappears again: what the file-level and channel-level chunk iterators hand out for it must be arrays of channel.dtype."""
+    import gen_files as gf
+    rnd = ctx.rnd
+    out = []
+    stats["late_channel_files"] = 0
+    base = dict(interleaved=False, big=False, rawFlag=True, daqmxFlag=False, lengthUnknown=False, version=4713, padding=0, hasMeta=True, newList=True)
+    i32 = lambda: [struct.pack("<i", rnd.randint(-9, 9)) for _ in range(2)]  # noqa
+    for ty in ALL_TYPES:
+        first = dict(path=gf.path_of("g", "first"), idx=("F", 3, 2, 0), props=[])
+        late = dict(path=gf.path_of("g", "late"), idx=("F", ty, 2, 8 + 3 if ty == 0x20 else 0), props=[])
+        v2 = lambda: [b"ab", b"c"] if ty == 0x20 else [rand_value(rnd, ty) for _ in range(2)]  # noqa
+        segs = [dict(base, objs=[first], chunks=[[i32()], [i32()]]),
+                dict(base, objs=[first, late], chunks=[[i32(), v2()]]),
+                dict(base, objs=[late], chunks=[[v2()], [v2()]]),
+                dict(base, objs=[first], chunks=[[i32()]])]
+        e = model.ask(gf.to_line(segs))
+        if not e.get("ok") or not e.get("wf"):
+            ctx.notes.append("late-channel template for type %#x is not a well-formed encoding" % ty)
+            continue
+        d = bytes.fromhex(e["file"])
+        stats["late_channel_files"] += 1
+        with nptdms.TdmsFile.open(io.BytesIO(d)) as f:
+            ch = f["g"]["late"]
+            declared = ch.dtype
+            got = []
+            try:
+                for k, chunk in enumerate(f.data_chunks()):
+                    for cc in chunk["g"].channels():
+                        if cc.name == "late":
+                            got.append(("TdmsFile.data_chunks()[%d]['g']['late'][:]" % k, cc[:]))
+                for k, c in enumerate(ch.data_chunks()):
+                    got.append(("channel.data_chunks()[%d][:]" % k, c[:]))
+                got.append(("[:]", ch[:]))
+            except Exception as ex:  # noqa
+                out.append(Violation("chunk iteration over a file whose channel appears late raised %s: %s (type %#x)" % (type(ex).__name__, str(ex)[:100], ty), dict(file=d.hex(), raw_type=ty)))
+                continue
+            for label, arr in got:
+                stats["reads"] += 1
+                if not isinstance(arr, np.ndarray):
+                    out.append(Violation("%s returned a %s, not an array (type %#x; the channel first appears in the second segment)" % (label, type(arr).__name__, ty), dict(file=d.hex(), raw_type=ty, read=label)))
+                elif not same(arr.dtype, declared, label):
+                    out.append(Violation("%s has dtype %s but channel.dtype is %s (type %#x; the channel first appears in the second segment)" % (label, arr.dtype, declared, ty), dict(file=d.hex(), raw_type=ty, read=label)))
+        if len(out) >= 3:
+            break
+    return out
+
+
 def daqmx_pass(ctx, model, nptdms, stats):
     """DAQmx channels (format-changing and digital-line scalers of every integer / float type, 1-3 scalers, several buffers, segments
     and chunks) made readable through `NI_Number_Of_Scales` (the scaled data is then the scaler with the highest listed id):
@@ -302,16 +351,18 @@ def run(ctx):
                         disagreements.append(dict(what="model scaling error %s" % m.get("err"), file=data.hex()))
                 if len(samples) < 2 and sk == "graph":
                     samples.append(dict(raw_type=ty, graph=str(graph)[:200]))
-                if len(violations) >= 5 or len(disagreements) >= 20:
+                if len(violations) >= 5 or len(disagreements) >= ctx.dis_limit:
                     break
-            if len(violations) >= 5 or len(disagreements) >= 20:
+            if len(violations) >= 5 or len(disagreements) >= ctx.dis_limit:
                 break
-        if len(violations) >= 5 or len(disagreements) >= 20:
+        if len(violations) >= 5 or len(disagreements) >= ctx.dis_limit:
             break
         if ctx.tier == "quick" and ctx.elapsed() > 45:
             break
     if len(violations) < 5:
         violations += empty_chunk_pass(ctx, model, nptdms, stats)
+    if len(violations) < 5:
+        violations += late_channel_pass(ctx, model, nptdms, stats)
     if len(violations) < 5:
         violations += daqmx_pass(ctx, model, nptdms, stats)
     import shutil
